@@ -51,6 +51,9 @@ class Module:
             from . import derename
             try:
                 derename.derename_tree(self.tree, self.rel, self.derenamed)
+                if self.derenamed and not os.environ.get("HV_NO_OPORDER"):
+                    # the text order of ==/!= operands was decided with the names as written
+                    self.tree = ast.fix_missing_locations(_OperandOrder().visit(self.tree))
             except Exception as e:  # the pass is an optional normalisation: on any failure analyse the tree as written
                 self.tree = normalise_tree(ast.parse(self.source, filename=path))
                 self.derenamed = [(self.rel, "*", "pass failed: %r" % e)]
@@ -256,13 +259,27 @@ def inline_temporaries(fnode, expr, depth=4, keep=(), inline_calls=False, inline
     single = {k: v for k, v in defs.items() if counts.get(k) == 1 and k not in params and k not in keep and not isinstance(v, skip)}
 
     class Sub(ast.NodeTransformer):
-        def __init__(self, d):
+        def __init__(self, d, shadowed=frozenset()):
             self.d = d
+            self.shadowed = shadowed
 
         def visit_Name(self, node):
-            if isinstance(node.ctx, ast.Load) and node.id in single and self.d > 0:
+            if isinstance(node.ctx, ast.Load) and node.id in single and node.id not in self.shadowed and self.d > 0:
                 return Sub(self.d - 1).visit(copy.deepcopy(single[node.id]))
             return node
+
+        def _comp(self, node):
+            # a name bound by the comprehension shadows the function's local of the same name
+            # (the first iterable is evaluated outside, but it cannot mention the targets anyway)
+            bound = {x.id for g in node.generators for x in ast.walk(g.target) if isinstance(x, ast.Name)}
+            return Sub(self.d, self.shadowed | bound).generic_visit(node)
+
+        visit_ListComp = visit_SetComp = visit_GeneratorExp = visit_DictComp = _comp
+
+        def visit_Lambda(self, node):
+            a = node.args
+            bound = {x.arg for x in a.posonlyargs + a.args + a.kwonlyargs} | ({a.vararg.arg} if a.vararg else set()) | ({a.kwarg.arg} if a.kwarg else set())
+            return Sub(self.d, self.shadowed | bound).generic_visit(node)
 
     return ast.fix_missing_locations(reorder_operands(Sub(depth).visit(copy.deepcopy(expr)), fnode))
 
